@@ -120,14 +120,24 @@ class BuildLock:
         self.f.close()
 
 
-def run(cmd, cwd=None, timeout=1800, env=None, stdin=None):
+def _big_stack():
+    # coqc's vm_compute recurses once per byte of a long string (matchb, lexers): give the child the largest stack allowed
+    import resource
+    try:
+        soft, hard = resource.getrlimit(resource.RLIMIT_STACK)
+        resource.setrlimit(resource.RLIMIT_STACK, (hard, hard))
+    except Exception:
+        pass
+
+
+def run(cmd, cwd=None, timeout=1800, env=None, stdin=None, big_stack=False):
     e = dict(os.environ)
     e["CARGO_NET_OFFLINE"] = "true"
     if env:
         e.update(env)
     t0 = time.time()
     try:
-        p = subprocess.run(cmd, cwd=cwd, env=e, timeout=timeout, input=stdin,
+        p = subprocess.run(cmd, cwd=cwd, env=e, timeout=timeout, input=stdin, preexec_fn=_big_stack if big_stack else None,
                            stdout=subprocess.PIPE, stderr=subprocess.STDOUT, text=True, errors="replace")
         return p.returncode, p.stdout, time.time() - t0
     except subprocess.TimeoutExpired as ex:
@@ -197,7 +207,7 @@ def coq_eval(name, text, timeout=900):
     p = os.path.join(d, name + ".v")
     with open(p, "w") as f:
         f.write(text)
-    rc, out, dt = run(["coqc", "-noglob", "-w", COQ_WARN, "-Q", COQ, "AV", p], cwd=d, timeout=timeout)
+    rc, out, dt = run(["coqc", "-noglob", "-w", COQ_WARN, "-Q", COQ, "AV", p], cwd=d, timeout=timeout, big_stack=True)
     return rc, out, dt
 
 
